@@ -229,3 +229,24 @@ Theorem C14_tie_calc_integral_scale :
     int_scale O Rational s = Some (Rational_calc_integral_scale O (len_rescaled O s) (opt O s 0)).
 Proof. exact @int_scale_tie. Qed.
 Print Assumptions C14_tie_calc_integral_scale.
+
+(* 11. the constructor with integral_scale= : it IS the plain constructor followed by the two assignments it
+   performs (integral_scale, then var once more because var_factor may depend on the new length scale);
+   with var_raw= it is the unchecked build followed by the integral_scale assignment.  Its result is
+   well-formed, in bounds and canonical.  (construct_int models __init__(..., integral_scale=ls) for the
+   classes with a closed-form integral scale.) *)
+Theorem C14_constructor_integral_scale_is_history :
+  forall (T : Type) (O : NumOps T) (c : Cls) (a : Args) (ls : list T),
+    construct_int O c a ls =
+    if a_var_is_raw a then bind (build O c a) (fun s0 => run O c s0 [SetIntScale ls])
+    else bind (construct O c a) (fun s0 => run O c s0 [SetIntScale ls; SetVar (a_var a)]).
+Proof. exact @construct_int_is_history. Qed.
+Print Assumptions C14_constructor_integral_scale_is_history.
+
+Theorem C14_constructor_integral_scale_canonical :
+  forall (T : Type) (O : NumOps T),
+    nltb O (n0 O) (n1 O) = true -> (forall x : T, nabs O (nabs O x) = nabs O x) ->
+  forall (c : Cls) (a : Args) (ls : list T) (s : State),
+    construct_int O c a ls = Ok s -> WF O s /\ InB O c s /\ construct O c (args_of s) = Ok s.
+Proof. exact @construct_int_canonical. Qed.
+Print Assumptions C14_constructor_integral_scale_canonical.
